@@ -107,6 +107,12 @@ def _alarm(signum, frame):
     raise GenerationTimeout()
 
 
+def disarm():
+    """switch the watchdog timer off (for processes that evaluate single cases and then do something else)"""
+    signal.setitimer(signal.ITIMER_REAL, 0)
+    _phase[0] = "gen"
+
+
 def run_case(mod, case):
     """evaluate one case under the watchdog; returns Outcome"""
     signal.signal(signal.SIGALRM, _alarm)
